@@ -18,6 +18,7 @@ SPECS = {}
 NA = {}
 
 C10_H = ["manifest/c10_kernel.go", "manifest/c10_text.go"]
+C10_AH = ["arvados/c10_load.go", "arvados/fskeep.go"]
 SPECS["C10"] = dict(
     level="model_checking",
     outside="manifests larger than the stated block/token counts; python keep.py/arvfile.py callers",
@@ -29,9 +30,13 @@ SPECS["C10"] = dict(
              params=dict(quick=dict(blocks=3, maxsize=20), thorough=dict(blocks=5, maxsize=40)), witnesses=["done", "multi-block-file"]),
         dict(name="stream", pkg="sdk/go/manifest", harness=C10_H, entry="GosymH_C10_stream",
              params=dict(quick=dict(blocks=2, maxsize=3, tokens=2), thorough=dict(blocks=3, maxsize=4, tokens=3)), witnesses=["done", "file-of-three-or-more-segments"]),
-        dict(name="reject", pkg="sdk/go/manifest", harness=C10_H, entry="GosymH_C10_reject", witnesses=["done", "accepted", "rejected"]),
+        dict(name="reject", pkg="sdk/go/manifest", harness=C10_H, entry="GosymH_C10_reject", params=dict(quick=dict(blocks=1), thorough=dict(blocks=2)), witnesses=["done", "accepted", "rejected"]),
         dict(name="names", pkg="sdk/go/manifest", harness=C10_H, entry="GosymH_C10_names",
              params=dict(quick=dict(maxlen=2), thorough=dict(maxlen=4)), witnesses=["done"]),
+        dict(name="load", pkg="sdk/go/arvados", harness=C10_AH, entry="GosymH_C10_load",
+             params=dict(quick=dict(blocks=2, maxsize=3, tokens=2), thorough=dict(blocks=3, maxsize=4, tokens=3)), witnesses=["done", "file-of-several-ranges"]),
+        dict(name="load-reject", pkg="sdk/go/arvados", harness=C10_AH, entry="GosymH_C10_load_reject", params=dict(quick=dict(blocks=1), thorough=dict(blocks=2)), witnesses=["done", "accepted", "rejected"]),
+        dict(name="pdh", pkg="sdk/go/arvados", harness=C10_AH, entry="GosymH_C10_pdh", witnesses=["done"]),
         dict(name="extract", pkg="sdk/go/manifest", harness=C10_H, entry="GosymH_C10_extract",
              params=dict(quick={"maxsize": 2, "symbolic-bystander": 0}, thorough={"maxsize": 2, "symbolic-bystander": 1}), witnesses=["done"]),
     ],
